@@ -4,6 +4,8 @@
 // usage: c12_modcube PART NPARTS K
 //        c12_modcube single OP A B N      (replay of one case)
 #pragma once
+#include <csignal>
+#include <cstdlib>
 #include <algorithm>
 
 #include "au/utility/mod.hh"
@@ -87,8 +89,23 @@ inline void report(CubeStats &st, int slot, const char *kind, const char *op, u6
                     u64s(want).c_str());
 }
 
+// A trap inside a helper (e.g. a division by zero) on operands the statement covers is a violation for those
+// operands, not a harness failure: report it in the usual V format and stop this process with a distinct code.
+static const char *volatile c12_cur_op = "";
+static volatile u64 c12_cur_a = 0, c12_cur_b = 0, c12_cur_n = 0;
+extern "C" inline void c12_trap(int sig) {
+    std::fflush(stdout);
+    std::printf("V {\"kind\":\"mod-value\",\"op\":\"%s\",\"a\":\"%s\",\"b\":\"%s\",\"n\":\"%s\","
+                "\"got\":\"trap-signal-%d\",\"want\":\"the exact residue\"}\n",
+                c12_cur_op, u64s(c12_cur_a).c_str(), u64s(c12_cur_b).c_str(), u64s(c12_cur_n).c_str(), sig);
+    std::fflush(stdout);
+    std::_Exit(86);
+}
+static const bool c12_trap_installed = (std::signal(SIGFPE, c12_trap), true);
+
 #define C12_CALL(slot, opname, expr, wantexpr, A_, B_, N_)                                  \
     do {                                                                                    \
+        c12_cur_op = opname; c12_cur_a = (A_); c12_cur_b = (B_); c12_cur_n = (N_);          \
         const unsigned long ub0 = c12_ubsan_reports;                                        \
         const u64 got_ = (expr);                                                            \
         const bool wrapped_ = c12_ubsan_reports != ub0;                                     \
